@@ -155,6 +155,15 @@ def rule_clone(repo):
             # the copy is taken AFTER self was expanded / broadcast to the common batch shape
             bc = root_self and any(a in chain for a in ('expand', 'expand_as', 'broadcast_to', 'repeat', 'tile')) or \
                 any(isinstance(x, ast.Call) and (dotted(x.func) or '').split('.')[-1] in ('broadcast_tensors', 'broadcast_to', 'broadcast_shapes') for x in ast.walk(v))
+            # order inside the chain (outermost first): the COPY is the last thing before add_, taken of the already expanded tensor - an expanded view
+            # has stride-0 (overlapping) memory and cannot be written in place
+            exp_i = [i for i, a in enumerate(chain) if a in ('expand', 'expand_as', 'broadcast_to')]
+            cp_i = [i for i, a in enumerate(chain) if a in ('clone', 'contiguous', 'repeat', 'tile')]
+            writable = not exp_i or (cp_i and min(cp_i) < min(exp_i))
+            res.inst({'function': f.fq, 'method chain before add_ (outermost first)': chain, 'copy taken after the expansion': bool(writable)}, (f.fq, 'order'))
+            if ok and bc and not writable:
+                res.add(Finding('C05.CLONE', f, 'LieTensor.add expands the copy (`%s`) instead of copying the expansion: the destination of add_ is a stride-0 view, and the '
+                                'in-place write raises whenever self has to be broadcast to the batch of `other`' % src(recv)[:60], construct='add expands after clone'))
     res.inst({'function': f.fq, 'clones': ok, 'expanded to the broadcast batch before the in-place add': bc}, f.fq)
     if not ok:
         res.add(Finding('C05.CLONE', f, 'LieTensor.add must apply add_ to a copy of self', construct='add clone'))
@@ -301,8 +310,44 @@ def rule_jlimit(repo):
     return rule_limit(repo, 'C05.LIMIT', [(OP, 'so3_Jl'), (OP, 'so3_Jl_inv'), (OP, 'calcQ')], floor=6, decided_floor=6)
 
 
+@guarded
+def rule_alpha(repo):
+    """`alpha` scales the increment: X.add(a, alpha) = Exp(alpha a) @ X.  On EVERY path that returns a result the returned value depends on alpha; an early
+    return taken before `other = alpha * other` (a fast path for equal batch shapes, say) honours the option on one path only."""
+    from ..expr import Inliner
+    res = RuleResult('C05.ALPHA', 'LieTensor.add / add_: on every returning path the returned value depends on the `alpha` option', floor=2)
+    for q in ('LieTensor.add', 'LieTensor.add_'):
+        f = repo.func(LT, q)
+        if 'alpha' not in f.params:
+            raise AnalysisError('C05.ALPHA: %s has no alpha parameter' % q)
+        pths, _ = paths.function_paths(f.node, limit=256, strict=False)
+        n_ret = 0
+        for ev, ex in pths:
+            if ex != 'return':
+                continue
+            inl = Inliner()
+            ret = None
+            for e in ev:
+                if e[0] == 'stmt' and isinstance(e[1], ast.Return):
+                    ret = inl.value(e[1].value) if e[1].value is not None else None
+                    retnode = e[1]
+                elif e[0] == 'stmt':
+                    inl.feed(e[1])
+            if ret is None:
+                continue
+            n_ret += 1
+            dep = any(isinstance(x, ast.Name) and x.id == 'alpha' for x in ast.walk(ret))
+            res.inst({'function': f.fq, 'returned': src(retnode)[:60], 'depends on alpha': dep}, (f.fq, src(retnode)[:70]))
+            if not dep:
+                res.add(Finding('C05.ALPHA', f, '%s returns `%s` on a path where `alpha` has not been applied: the option is honoured on the other path(s) only'
+                                % (q, src(retnode)[:60]), node=retnode, construct='return without alpha'))
+        if n_ret == 0:
+            raise AnalysisError('C05.ALPHA: %s has no returning path' % q)
+    return res
+
+
 def _rules_core(repo, tier):
-    return [rule_fwd(repo), rule_retr_add(repo), rule_jinv(repo), rule_clone(repo), rule_dt(repo), rule_adj(repo), rule_blocks(repo), rule_jlimit(repo), __import__('sa.limits', fromlist=['x']).rule_bernoulli(repo, 'C05.BERN', OP, [('sim3_Jl', 'sim3_Jl_inv', 'sim3_adj')])] + rule_jr(repo)
+    return [rule_fwd(repo), rule_retr_add(repo), rule_jinv(repo), rule_clone(repo), rule_dt(repo), rule_adj(repo), rule_blocks(repo), rule_jlimit(repo), rule_alpha(repo), __import__('sa.limits', fromlist=['x']).rule_bernoulli(repo, 'C05.BERN', OP, [('sim3_Jl', 'sim3_Jl_inv', 'sim3_adj')])] + rule_jr(repo)
 
 
 def rules(repo, tier):
